@@ -183,6 +183,17 @@ def main(argv=None):
             rep.count("directed_model_rejected:" + c.err)
             continue
         core.guarded(rep, text, check_ode, rep, drv, rng, c.ode, text, "directed", c)
+    # ---- annotations and component names outside ASCII, with a backslash, a percent sign (written and read back verbatim)
+    text = ('states("R\u00e9ticulum", x=ScalarParam(0.5, unit="\u00b5F", description="Na\u207a conductance \\\\alpha at 37 \u00b0C"))\n'
+            'states("B-comp", y=ScalarParam(2, unit="mS/\u00b5F", description="a gate; 50% block"))\n'
+            'parameters("R\u00e9ticulum", p=ScalarParam(1.5, unit="mV", description="\u0394V"))\n'
+            'expressions("R\u00e9ticulum")\ndx_dt = -p*x\nexpressions("B-comp")\ndy_dt = x - y\n')
+    c = pipeline.Case(drv, text)
+    rep.case(key=text, nontrivial=True)
+    if c.err is not None:
+        rep.violation(f"a model with non-ASCII annotations is rejected: {c.err}", {"kind": "direct", "text": text})
+    else:
+        core.guarded(rep, text, check_ode, rep, drv, rng, c.ode, text, "non-ascii", c)
     # ---- the known unit "1" finding
     text = "states(x=1)\nparameters(p=2)\na = p*x # 1\ndx_dt = -a\n"
     c = pipeline.Case(drv, text)
